@@ -365,6 +365,7 @@ fn clean_item(it: &mut syn::Item, derive_keep: &[String], subst: &BTreeMap<Strin
 
 struct Rules {
     split_find: bool,
+    ctor_as_fn: bool,
     map_collect: Option<String>,
     fmt_display: bool,
     iter_find: Option<String>,
@@ -488,9 +489,12 @@ impl<'a> VisitMut for RuleVisitor<'a> {
                                         let t: syn::Type = syn::parse_str(elem_ty).unwrap_or(parse_quote!(_));
                                         parse_quote!(Vec::<#t>::new())
                                     };
+                                    // a char-literal separator uses the char variant of the trusted split function
+                                    let is_char = matches!(sep, Expr::Lit(syn::ExprLit { lit: syn::Lit::Char(_), .. }));
+                                    let items: Expr = if is_char { parse_quote!(vx_split_char(&#recv, #sep)) } else { parse_quote!(vx_split_str(&#recv, #sep)) };
                                     repl = Some(parse_quote!({
                                         let mut __vx_v = #new_vec;
-                                        for #pat in vx_split_str(&#recv, #sep) {
+                                        for #pat in #items {
                                             __vx_v.push(#body);
                                         }
                                         __vx_v
@@ -541,6 +545,20 @@ impl<'a> VisitMut for RuleVisitor<'a> {
             if let Some(n) = repl {
                 *e = n;
                 self.applied.bump("E23-iter-find-as-early-stop-loop");
+            }
+        }
+        if self.rules.ctor_as_fn {
+            // E26: `X.map(Type::Variant)` (a tuple-variant constructor passed as a function) ==> `X.map(|__vx_a| Type::Variant(__vx_a))`
+            if let Expr::MethodCall(mc) = e {
+                if mc.method == "map" && mc.args.len() == 1 {
+                    if let Expr::Path(pth) = &mc.args[0] {
+                        if pth.path.segments.len() >= 2 && pth.path.segments.last().map(|x| x.ident.to_string().chars().next().map(|c| c.is_uppercase()).unwrap_or(false)).unwrap_or(false) {
+                            let ctor = pth.clone();
+                            mc.args[0] = parse_quote!(|__vx_a| #ctor(__vx_a));
+                            self.applied.bump("E26-constructor-as-closure");
+                        }
+                    }
+                }
             }
         }
         if let Some(elem_ty) = &self.rules.map_collect {
@@ -1313,6 +1331,7 @@ fn transform_fn(
         .unwrap_or_default();
     let rules = Rules {
         split_find: rule_list.iter().any(|r| r == "E19"),
+        ctor_as_fn: rule_list.iter().any(|r| r == "E26"),
         map_collect: rule_list.iter().find_map(|r| if r == "E24" { Some(String::new()) } else { r.strip_prefix("E24=").map(String::from) }),
         fmt_display: rule_list.iter().any(|r| r == "E25"),
         iter_find: rule_list.iter().find_map(|r| if r == "E23" { Some(String::new()) } else { r.strip_prefix("E23=").map(String::from) }),
